@@ -16,10 +16,12 @@ type TypeMap struct {
 	busy  map[string]bool
 	structNames map[*types.Struct]string // canonical name per struct (type B A shares A's)
 	heapPkg     map[string]*types.Package // "H.<struct>." prefix -> defining package
+	immutableFields map[string]bool
+	immutableHeaps  map[string]bool
 }
 
 func NewTypeMap(d *Decls) *TypeMap {
-	return &TypeMap{d: d, cache: map[string]string{}, busy: map[string]bool{}, structNames: map[*types.Struct]string{}, heapPkg: map[string]*types.Package{}}
+	return &TypeMap{d: d, cache: map[string]string{}, busy: map[string]bool{}, structNames: map[*types.Struct]string{}, heapPkg: map[string]*types.Package{}, immutableHeaps: map[string]bool{}}
 }
 
 func qual(p *types.Package) string {
@@ -256,6 +258,9 @@ func (tm *TypeMap) HeapName(t types.Type, field string) string {
 		if st, ok := n.Underlying().(*types.Struct); ok {
 			cn := tm.canonStruct(n, st)
 			if n.Obj() != nil && n.Obj().Pkg() != nil {
+				if tm.immutableFields != nil && tm.immutableFields[n.Obj().Pkg().Path()+"."+n.Obj().Name()+"."+field] {
+					tm.immutableHeaps["H."+cn+"."+field] = true
+				}
 				tm.heapPkg["H."+cn+"."] = n.Obj().Pkg()
 				tm.heapPkg["HG."+shortTypeName(n)+"."] = n.Obj().Pkg()
 			}
